@@ -9,7 +9,9 @@
 #   brokerclient real _KafkaBrokerClient under simnet (virtual clock, puppet endpoints, recording transports) driven by
 #                generated histories of makeRequest / cancel / connect ok-fail / data in any chunking / loss / timer /
 #                close / disconnect / updateMetadata incl. late, duplicate, unsolicited frames and disabled events;
-#                exhaustive enumeration of all enabled sequences over a 13-event alphabet (depth 6 quick, 7 thorough)
+#                exhaustive enumeration of all enabled sequences over a 13-event alphabet (depth 6 quick, 7 thorough), over
+#                three 12-event alphabets with fixed user-callback tables (depth 5 / 6) and, thorough, a split-frame alphabet;
+#                histories with user callbacks/errbacks calling back into the client (inside the two loops and in tail position)
 import random
 import struct
 
@@ -159,12 +161,17 @@ def run(ck):
 
     ck.cov["rule"] = ("seeded generators (random.Random(VERIF_SEED)). Framing: frame streams (0-6 frames, ids at the int32 extremes, bodies 4-300 bytes) "
                       "followed by an incomplete tail / a length prefix above 2^31-1 / a frame shorter than an id / garbage, cut into chunks at random "
-                      "(whole, byte-wise, empty chunks, cuts inside prefix and id). Bootstrap: request/data/connectionLost histories incl. duplicate ids, "
-                      "unknown ids, short frames, requests and data after the loss. Broker client: on-line state-aware generator over the event alphabet of "
+                      "(whole, byte-wise, empty chunks, cuts inside prefix and id). Bootstrap: request/data/connectionLost/cancel histories incl. duplicate ids, "
+                      "unknown ids, short frames, requests and data after the loss, late responses to cancelled requests with several requests in flight, "
+                      "plus histories whose errbacks call request() again (monitored only). Broker client: on-line state-aware generator over the event alphabet of "
                       "Model/BrokerClient.v (replies to written requests in and out of order, duplicate/unknown/any-known ids, short frames, prefixes at and "
-                      "over the limit, chunked delivery, about 10% late or disabled events, duplicate and reused correlation ids, no-reply requests), "
+                      "over the limit, chunked delivery, about 10% late or disabled events - late ones (cancel of a fired Deferred, request after close, data "
+                      "after a loss request) are applied to the implementation, disabled ones (no object to act on) exercise only the model's no-op - "
+                      "duplicate and reused correlation ids, no-reply requests), "
                       "plus every enabled sequence up to the stated depth over 13 events (2 ids x make/cancel/reply, one no-reply make, connect ok/fail, "
-                      "lost, fire, close, disconnect). A broker-client case is non-trivial if it has >= 2 accepted requests and >= 1 Deferred firing; a "
+                      "lost, fire, close, disconnect; whole frames only - split frames and bad prefixes come from the random streams and the thorough split "
+                      "alphabet), plus random histories and every enabled sequence (12 events, three fixed callback tables) in which the callbacks/errbacks of "
+                      "requests call cancel/makeRequest/disconnect/close. A broker-client case is non-trivial if it has >= 2 accepted requests and >= 1 Deferred firing; a "
                       "receiver case if at least one packet was delivered; distinct = distinct canonical case lines.")
     ck.assumptions += [
         "hand-written Gallina models: Model/Framing.v stands for twisted.protocols.basic.IntNStringReceiver.dataReceived/sendString as configured by afkak/_protocol.py:32-60, KafkaBootstrapProtocol (_protocol.py:63-140) and KafkaCodec.get_response_correlation_id; Model/BrokerClient.v for afkak/brokerclient.py:44-79,148-462. The tie is this run's differential correspondence, not a proof",
@@ -174,7 +181,7 @@ def run(ck):
         "user callbacks/errbacks that re-enter the client synchronously (cancel / makeRequest / disconnect / close, on success and on failure): inside the two loops that fire Deferreds (_sendQueued, close()) they are INSIDE the extended model Model/BrokerClientHook.v (IConnOk / IClose interleavings; C06_exactly_once_reentrant, C06_nothing_after_fired_reentrant) and its correspondence (tree_part, hook enumerations); in tail positions the driver inserts the call as the next event and checks equality on the real code (not proved). Where user code runs inside close()'s loop the outcome depends on the order in which close() fails the requests, which the property does not fix: such a case is compared with the model only if no tombstone existed and the implementation failed newest first (differences in the other cases are counted, not reported), and is always subject to the order-independent monitors. Endpoints whose connect() completes synchronously are checked by C10 (sync_connect_part)",
         "the paused flag of IntNStringReceiver and the `recvd` compatibility attribute are not modelled (afkak never sets them)",
         "events the environment cannot produce (no transport / attempt / Deferred to act on) are no-ops in the model and CANNOT be applied to the implementation (there is no object to act on); the generator emits them only to exercise the model's enabledness. The one exception is a timer event with no timer armed: the driver then lets an hour of virtual time pass and requires that nothing happens. Everything physically possible is applied: cancel of an already fired Deferred, makeRequest after close(), data after loseConnection() was requested, a second close()",
-        "extraction: ExtrOcamlBasic only; Z/positive/nat stay Coq datatypes; sample re-evaluated in Coq by vm_compute (the exhaustive enumeration is compared against the extracted runner only)",
+        "extraction: ExtrOcamlBasic only; Z/positive/nat stay Coq datatypes; the comparison is made against the extracted runner; a sample of every part, including about 195 lines per enumerated alphabet and about 30 of the user-callback histories, is re-evaluated inside Coq by vm_compute (not the tail-position comparison, whose model traces are post-processed by the driver)",
     ]
     ck.cov["trusted_base"] += ["correspondence harness harness/props/C06.py + props/brokerclient_lib.py + drv_brokerclient.py + drv_framing.py + simnet.py + vlib.py",
                                "extracted OCaml runners (ExtrOcamlBasic) cross-checked by vm_compute sample"]
